@@ -265,6 +265,30 @@ func StoreDump(s store.Store) string {
 	return DeepDump(s)
 }
 
+// StateKey is a hash of the complete internal state of a driver, including what no getter shows
+// (recorded peer timestamps, nonce records and their expiry). BFS state keys include it so that two
+// histories are merged only when the implementation is really in the same state, whatever the
+// getters say.
+func StateKey(s store.Store) string {
+	db := BadgerDB(s)
+	if db == nil {
+		return Hash(DeepDump(s))
+	}
+	var out []string
+	db.View(func(txn *badgerdb.Txn) error {
+		it := txn.NewIterator(badgerdb.DefaultIteratorOptions)
+		defer it.Close()
+		for it.Rewind(); it.Valid(); it.Next() {
+			item := it.Item()
+			v, _ := item.ValueCopy(nil)
+			out = append(out, fmt.Sprintf("%s=%x@%d", item.Key(), v, item.ExpiresAt()))
+		}
+		return nil
+	})
+	sort.Strings(out)
+	return Hash(strings.Join(out, "\n"))
+}
+
 // IsBadger reports whether s is the badger driver.
 func IsBadger(s store.Store) bool { return BadgerDB(s) != nil }
 
